@@ -1,4 +1,5 @@
 import PwVerif.Proofs.Storage
+import PwVerif.Proofs.StorageTree
 /-!
 # C19 — A failed or interrupted save never costs the last good save or poisons loading
 
@@ -300,6 +301,128 @@ theorem C19_delete_cleans_partial (sw : Bool) (fs : FS)
   · exact delete_all_hasSaved sw fs h
   · exact delete_all_noTmp _ fs h
 
+
+/-! ## "Newest wins" over both-suffix states (seeded change C08-2 shows why this needs saying) -/
+
+/-- from ANY file-system state -- in particular one where a save interrupted between `os.replace` and the removal of
+the other suffix left two complete files -- a completed save leaves exactly ONE final-name file: the new one.  No stale
+file of the other suffix survives for `_load` to prefer. -/
+theorem C19_save_leaves_single_suffix (sw : Bool) (fs : FS) (c : Content) (cls : Cls) (v : Nat) (hc : c ≠ .bothFail) :
+    ((saveFS ⟨.atomicReplace, sw⟩ fs c cls v).pckl = .good cls v ∧ (saveFS ⟨.atomicReplace, sw⟩ fs c cls v).cpckl = .absent) ∨
+    ((saveFS ⟨.atomicReplace, sw⟩ fs c cls v).pckl = .absent ∧ (saveFS ⟨.atomicReplace, sw⟩ fs c cls v).cpckl = .good cls v) := by
+  obtain ⟨d, p, q, pt, ct⟩ := fs
+  cases c <;> simp_all [saveFS, saveSteps, attempt, runSteps, Step.apply, FS.set, FS.get, FS.noFiles]
+
+/-- both suffixes good is reachable (a `.cpckl` save, then a plain save cut right after its `os.replace`); `_load`
+prefers `.pckl`, which there is the NEWER one; in the mirrored state (`.pckl` old, `.cpckl` from the interrupted save)
+it returns the previous state -- and in both the next completed save wins -/
+theorem C19_both_suffixes_newest_wins :
+    (run Cfg.current (.init Cls.graph) [.save .pickleFails 1, .crash .ok 2 5]).fs =
+        ⟨true, .good Cls.graph 2, .good Cls.graph 1, .absent, .absent⟩ ∧
+      storageLoad (run Cfg.current (.init Cls.graph) [.save .pickleFails 1, .crash .ok 2 5]).fs = .ok Cls.graph 2 ∧
+      (run Cfg.current (.init Cls.graph) [.save .ok 1, .crash .pickleFails 2 7]).fs =
+        ⟨true, .good Cls.graph 1, .good Cls.graph 2, .absent, .absent⟩ ∧
+      storageLoad (run Cfg.current (.init Cls.graph) [.save .ok 1, .crash .pickleFails 2 7]).fs = .ok Cls.graph 1 ∧
+      storageLoad (run Cfg.current (.init Cls.graph) [.save .ok 1, .crash .pickleFails 2 7, .save .pickleFails 3]).fs =
+        .ok Cls.graph 3 ∧
+      storageLoad (run Cfg.current (.init Cls.graph) [.save .pickleFails 1, .crash .ok 2 5, .save .pickleFails 3]).fs =
+        .ok Cls.graph 3 := by decide
+
+/-! ## Nested nodes, checkpoints and recovery files: several stores in one graph directory
+
+`main` = `g/picklestorage.*` (the graph's own save AND every checkpoint made from inside a run), `recovery` =
+`g/recovery.*` (written after a failed run), `childA/B` = `g/<child>/picklestorage.*` (a child saved on its own); all
+written by the same atomic `_save`.  `promiseT s` is the promise of store `s` alone. -/
+
+/-- every store keeps its own promise, whatever happens to the others: for every history of saves, checkpoints
+(also ones that cannot be written and fail the run), failed runs with their recovery write, each interrupted at any
+file-system call, loads and deletes on all four stores -- if a save of store `s` completed since its last delete,
+loading `s` gives that version or a later completely written one.  In particular an interrupted CHECKPOINT or an
+interrupted RECOVERY write costs neither the good save of the graph nor the good recovery file nor a child's save. -/
+theorem C19_tree_durable (sw climb : Bool) (cls : Cls) (ops : List TOp) (s : Store) (v : Nat)
+    (hv : (promiseT s .init ops).last = some v) :
+    ∃ v', storageLoad ((trun ⟨⟨.atomicReplace, sw⟩, climb⟩ (.init cls) ops).tree.view s) = .ok cls v' ∧
+      (v' = v ∨ v' ∈ (promiseT s .init ops).inflight) := by
+  have h := selT_run sw climb (.init cls) (fun _ => .init) ops (fun s => selT_init cls s) s
+  simp only [TWorld.init] at h
+  unfold Sel at h
+  rw [hv] at h
+  exact h
+
+/-- ... and no store ever offers `_load` an empty or torn file -/
+theorem C19_tree_no_poison (sw climb : Bool) (cls : Cls) (ops : List TOp) (s : Store) :
+    storageLoad ((trun ⟨⟨.atomicReplace, sw⟩, climb⟩ (.init cls) ops).tree.view s) ≠ .corrupt := by
+  have h := selT_run sw climb (.init cls) (fun _ => .init) ops (fun s => selT_init cls s) s
+  rcases sel_ok_or_notFound _ _ _ h with h | ⟨v, h⟩ <;> rw [h] <;> simp
+
+/-- frame: a tree op leaves the files of every store it does not write to exactly as they were (all variants) -/
+theorem C19_tree_frame (tc : TCfg) (w : TWorld) (op : TOp) (s : Store) (h : op.touches s = false) :
+    (tstep tc w op).1.tree.files s = w.tree.files s := tstep_frame tc w op s h
+
+/-- a checkpoint that can be written IS a save of the graph's own file -/
+theorem C19_checkpoint_is_main_save (tc : TCfg) (w : TWorld) (c : Content) (v : Nat) (hc : c ≠ .bothFail) :
+    tstep tc w (.ckpt c v) = tstep tc w (.on .main (.save c v)) := by
+  simp [tstep, hc]
+
+/-- reachable trees are consistent: a child directory only inside `g/`, files only inside their directory -/
+theorem C19_tree_wf (tc : TCfg) (cls : Cls) (ops : List TOp) : (trun tc (.init cls) ops).tree.WF :=
+  trun_wf tc (.init cls) ops (by simp [Tree.WF, TWorld.init, Tree.init, Files.none, Files.isNone])
+
+/-- a graph that is only ever saved under its own name is exactly the flat model above -/
+theorem C19_tree_refines_flat (tc : TCfg) (cls : Cls) (ops : List Op) :
+    trun tc (.init cls) (ops.map (TOp.on .main)) =
+      ⟨Tree.ofFS (run tc.cfg (.init cls) ops).fs, (run tc.cfg (.init cls) ops).node⟩ :=
+  trun_main_flat tc (.init cls) ops
+
+/-- delete in the nested layout, at full strength: the store's files are gone, and if this delete emptied `g/`
+(it held something before, it holds nothing now) then `g/` is gone as well -/
+def C19TreeDeleteStatement (tc : TCfg) : Prop :=
+  ∀ (cls : Cls) (ops : List TOp) (s : Store),
+    let w := trun tc (.init cls) ops
+    let t' := (tstep tc w (.on s .delete)).1.tree
+    t'.files s = Files.none ∧ ((w.tree.gEmpty = false ∨ w.tree.gdir = false) → t'.gEmpty = true → t'.gdir = false)
+
+theorem C19_tree_delete_cleans : C19TreeDeleteStatement TCfg.climbing := by
+  intro cls ops s
+  have hwf := trun_wf TCfg.climbing (.init cls) ops (by simp [Tree.WF, TWorld.init, Tree.init, Files.none, Files.isNone])
+  refine ⟨?_, ?_⟩
+  · cases s <;> simp only [tstep] <;> exact apply1_delete_files true _ _ _
+  · intro hb
+    cases s <;> simp only [tstep] <;> exact apply1_delete_climbs _ _ _ hwf hb
+
+/-- the tree as it is: deleting the storage of the only saved child removes `g/a/` and leaves the `g/` it emptied -/
+theorem C19_tree_delete_witness : ¬ C19TreeDeleteStatement TCfg.current := by
+  intro h
+  have := (h Cls.graph [.on .childA (.save .ok 1)] .childA).2
+  revert this
+  decide
+
+/-- ... the files of the deleted store are gone in any case, and the other stores are untouched (`C19_tree_frame`) -/
+theorem C19_tree_delete_files (climb : Bool) (cls : Cls) (ops : List TOp) (s : Store) :
+    (tstep ⟨Cfg.current, climb⟩ (trun ⟨Cfg.current, climb⟩ (.init cls) ops) (.on s .delete)).1.tree.files s = Files.none := by
+  cases s <;> simp only [tstep] <;> exact apply1_delete_files climb _ _ _
+
+/-! ## The storage interface: any back end, through the hooks `delete` uses -/
+
+/-- for a back end whose `_delete` removes everything it writes: `StorageInterface.delete` leaves nothing of it behind
+in state `st` IFF its hooks tell the truth there (something on disk ⇒ `_has_saved_content` or `_has_leftovers`) -/
+theorem C19_interface_delete_cleans_iff {σ} (b : Backend σ) (hd : b.delComplete) (st : σ) :
+    b.clean (b.delete st) = true ↔ b.truthfulAt st := backend_delete_cleans_iff b hd st
+
+/-- `PickleStorage` with its `_has_leftovers` is truthful in every state, so its delete always cleans ... -/
+theorem C19_pickle_hooks_truthful (fs : FS) :
+    (pickleBackend true).truthfulAt fs ∧ (pickleBackend true).clean ((pickleBackend true).delete fs) = true :=
+  ⟨pickleBackend_truthful fs,
+    (backend_delete_cleans_iff _ (pickleBackend_delComplete true) fs).2 (pickleBackend_truthful fs)⟩
+
+/-- ... a back end that writes temporaries but keeps the interface's default `_has_leftovers = False` is not, exactly
+in the leftover-only states, and there its delete removes nothing -/
+theorem C19_default_hook_not_truthful :
+    ¬ (pickleBackend false).truthfulAt ⟨true, .absent, .absent, .torn, .absent⟩ ∧
+      (pickleBackend false).delete ⟨true, .absent, .absent, .torn, .absent⟩ = ⟨true, .absent, .absent, .torn, .absent⟩ := by
+  refine ⟨?_, by decide⟩
+  simp [Backend.truthfulAt, pickleBackend, FS.noFiles, hasSaved]
+
 /-! ## Non-vacuity -/
 
 /-- a history with every kind of op: two good saves (second lands as `.cpckl`), a failing save,
@@ -345,6 +468,21 @@ example : deleteFS ⟨.inPlace, false⟩ ⟨true, .good Cls.graph 1, .torn, .abs
 example : (run ⟨.inPlace, false⟩ (.init Cls.graph) [.save .ok 1, .save .bothFail 2]).fs = FS.init ∧
     (run Cfg.current (.init Cls.graph) [.save .ok 1, .save .bothFail 2]).fs = ⟨true, .good Cls.graph 1, .absent, .absent, .absent⟩ := by decide
 
+-- nested / checkpoint / recovery: a history with every kind of tree op and what each store then promises
+def exTree : List TOp :=
+  [.on .main (.save .ok 1), .fail .ok 2, .on .childA (.save .pickleFails 3), .ckptCrash .ok 4 3, .failCrash .pickleFails 5 5,
+   .on .childA (.crash .ok 6 2), .ckpt .bothFail 7, .on .childB (.save .ok 8), .on .childB .delete, .ckpt .pickleFails 9]
+
+example : (promiseT .main .init exTree) = ⟨some 9, []⟩ ∧ (promiseT .recovery .init exTree) = ⟨some 2, [5]⟩ ∧
+    (promiseT .childA .init exTree) = ⟨some 3, [6]⟩ ∧ (promiseT .childB .init exTree).last = none := by decide
+example : (trun TCfg.current (.init Cls.graph) exTree).tree =
+    ⟨true, ⟨.absent, .good Cls.graph 9, .absent, .absent⟩, ⟨.good Cls.graph 2, .absent, .absent, .absent⟩,
+      true, ⟨.absent, .good Cls.graph 3, .empty, .absent⟩, false, Files.none⟩ := by decide
+-- the climbing clean-up differs from the tree as it is exactly when a nested clean-up empties `g/`
+example : (trun TCfg.current (.init Cls.graph) [.on .childA (.save .ok 1), .on .childA .delete]).tree.gdir = true ∧
+    (trun TCfg.climbing (.init Cls.graph) [.on .childA (.save .ok 1), .on .childA .delete]).tree = Tree.init ∧
+    (trun TCfg.climbing (.init Cls.graph) [.on .main (.save .ok 1), .on .childA (.save .ok 2), .on .childA .delete]).tree.gdir = true := by decide
+
 end PwVerif.C19
 
 #print axioms PwVerif.C19.C19_durable
@@ -376,3 +514,17 @@ end PwVerif.C19
 #print axioms PwVerif.C19.C19_delete_leftover_witness
 #print axioms PwVerif.C19.C19_delete_cleans_partial
 #print axioms PwVerif.C19.C19_refused_load_unchanged
+#print axioms PwVerif.C19.C19_save_leaves_single_suffix
+#print axioms PwVerif.C19.C19_both_suffixes_newest_wins
+#print axioms PwVerif.C19.C19_tree_durable
+#print axioms PwVerif.C19.C19_tree_no_poison
+#print axioms PwVerif.C19.C19_tree_frame
+#print axioms PwVerif.C19.C19_checkpoint_is_main_save
+#print axioms PwVerif.C19.C19_tree_wf
+#print axioms PwVerif.C19.C19_tree_refines_flat
+#print axioms PwVerif.C19.C19_tree_delete_cleans
+#print axioms PwVerif.C19.C19_tree_delete_witness
+#print axioms PwVerif.C19.C19_tree_delete_files
+#print axioms PwVerif.C19.C19_interface_delete_cleans_iff
+#print axioms PwVerif.C19.C19_pickle_hooks_truthful
+#print axioms PwVerif.C19.C19_default_hook_not_truthful
